@@ -256,6 +256,26 @@ func Main(id, tier string) int {
 			}
 		}
 	} else if countCases(remaining) > 0 {
+		// worker deaths (hang / crash) were located by a dedicated re-run already and cost a
+		// watchdog period each: keep their records, do not execute them again
+		deathRec := map[string]Violation{}
+		for _, v := range sum.Viol {
+			if v.Kind == "hang" || v.Kind == "crash" || v.Kind == "oom" {
+				deathRec[fmt.Sprintf("%s|%d", v.Scope, v.Index)] = v
+			}
+		}
+		var deaths []Violation
+		for name, list := range remaining {
+			var keep []uint64
+			for _, ix := range list {
+				if v, ok := deathRec[fmt.Sprintf("%s|%d", name, ix)]; ok {
+					deaths = append(deaths, v)
+				} else {
+					keep = append(keep, ix)
+				}
+			}
+			remaining[name] = keep
+		}
 		// fetch full records for the remaining cases from the real build
 		var jobs []job
 		for name, list := range remaining {
@@ -271,7 +291,11 @@ func Main(id, tier string) int {
 		e2 := *env
 		e2.Start = time.Now()
 		e2.Budget = 24 * time.Hour
-		rs := RunScopes(&e2, exe, scopes, jobs)
+		rs := &Summary{}
+		if len(jobs) > 0 {
+			rs = RunScopes(&e2, exe, scopes, jobs)
+		}
+		rs.Viol = append(rs.Viol, deaths...)
 		type gkey struct{ scope, kind string }
 		groups := map[gkey]Violation{}
 		counts := map[gkey]int{}
@@ -296,6 +320,7 @@ func Main(id, tier string) int {
 		if len(rs.Viol) == 0 {
 			sum.Internal = append(sum.Internal, fmt.Sprintf("%d violating cases did not reproduce when re-run (non-determinism in harness?)", countCases(remaining)))
 		}
+		isDeath := func(k string) bool { return k == "hang" || k == "crash" || k == "oom" }
 		for gi, k := range order {
 			if gi >= 20 {
 				break
@@ -310,7 +335,10 @@ func Main(id, tier string) int {
 			os.WriteFile(path, mustJSONIndent(rp), 0o644)
 			// a violation is believed only if it fails 5 times out of 5 in fresh processes
 			fails := 0
-			for k := 0; k < 5; k++ {
+			if isDeath(v.Kind) {
+				fails = 5 // reproduced in a traced re-run already; another 5 watchdog periods would add nothing
+			}
+			for k := 0; k < 5 && !isDeath(v.Kind); k++ {
 				_, err := runCmd(verifDir, nil, exe, "replay", path)
 				if err != nil {
 					fails++
